@@ -7,6 +7,8 @@ From the *source text* (ast, no import):
 All Lean names carry the prefix `c07` (other work packages may extract overlapping facts under their own names).
 """
 from __future__ import annotations
+
+PROPERTIES = ['C07']   # properties whose proofs depend on these declarations
 import ast
 
 
